@@ -173,7 +173,7 @@ def model_run(ctx):
     # distinct states instead: every enumerated case is a state, and every grid point must have BOTH successors produced by
     # the model's own actions (SampleStandard / SampleUniform enabled on the exact inverse), so a disabled action, an
     # empty enumeration or an unreachable phase changes the count.
-    r = tlc_mc(ctx, "MC_Random", constants={"LN": ln, "G": g, "Emit": "TRUE"}, tag="random_model", workers=6, timeout=1500,
+    r = tlc_mc(ctx, "MC_Random", constants={"LN": ln, "G": g, "Emit": "TRUE", "Full": "FALSE" if ctx.quick else "TRUE"}, tag="random_model", workers=6, timeout=1500,
                coverage=False)
     n = 2 ** ln
     cells, points, fine, ncase = 2 * n ** 3, 3 * (n + 1) ** 2 * n, 2 * 32, (g + 1) ** 4
